@@ -185,34 +185,35 @@ func (h *pheap) alloc(v []pval) pval {
 }
 
 type pinterp struct {
-	c          *Ctx
-	budget     int
-	aborted    bool
-	field      func(h *pheap, named *types.Named, idx int) (pval, bool) // value of a receiver field
-	rankOf     func(input int64) (int64, bool)
-	extentOf   func(input, axis int64) (int64, bool)
-	present    func(input int64) bool            // optional input supplied? (nil func: unknown)
-	inputList  func(input int64) ([]int64, bool) // integer content of a tensor-valued list input
-	callSeed   func(call *ssa.Call) (pval, bool) // value of a designated call (attribute getter)
-	onReject   func(fn *ssa.Function, iff *ssa.If, truth bool)
-	onPanic    func(fn *ssa.Function, in ssa.Instruction, what string)
-	onExt      func(fn *ssa.Function, call *ssa.Call, key string, operands []pval, h *pheap)
-	onLib      func(fn *ssa.Function, call *ssa.Call, callee *ssa.Function, args []pval, h *pheap)
-	onDyn      func(fn *ssa.Function, call *ssa.Call, args []pval, h *pheap) ([]pval, bool)     // call through a function value
-	onReduce   func(fn *ssa.Function, call *ssa.Call, name string, shape []int64, axes []int64) // a gorgonia reduction on a tensor of known shape
-	onRepeat   func(fn *ssa.Function, call *ssa.Call, shape []int64, axis, n int64)             // tensor.Repeat on a tensor of known shape
-	onInvoke   func(fn *ssa.Function, call *ssa.Call, recv pval, method string, args []pval, h *pheap) ([]pval, bool)
-	onStore    func(fn *ssa.Function, in ssa.Instruction, obj int64, field int) // a field of a heap object is written
-	visited    map[*ssa.Function]bool
-	decided    int // branches on a known condition that depends on the seed
-	trace      bool
-	globals    map[*ssa.Global]pval // package-level variables, filled by initGlobals
-	inInit     bool
-	initFailed []string
-	initPkgs   map[string]bool // packages whose initialisers are walked (others are skipped)
-	objects    bool            // model struct objects, maps and slices of arbitrary values (the interpreter tables of the Run plumbing)
-	hdrCache   map[*ssa.Function]bool
-	listReads  int
+	c                *Ctx
+	budget           int
+	aborted          bool
+	field            func(h *pheap, named *types.Named, idx int) (pval, bool) // value of a receiver field
+	rankOf           func(input int64) (int64, bool)
+	extentOf         func(input, axis int64) (int64, bool)
+	present          func(input int64) bool            // optional input supplied? (nil func: unknown)
+	inputList        func(input int64) ([]int64, bool) // integer content of a tensor-valued list input
+	callSeed         func(call *ssa.Call) (pval, bool) // value of a designated call (attribute getter)
+	onReject         func(fn *ssa.Function, iff *ssa.If, truth bool)
+	onPanic          func(fn *ssa.Function, in ssa.Instruction, what string)
+	onExt            func(fn *ssa.Function, call *ssa.Call, key string, operands []pval, h *pheap)
+	onLib            func(fn *ssa.Function, call *ssa.Call, callee *ssa.Function, args []pval, h *pheap)
+	onDyn            func(fn *ssa.Function, call *ssa.Call, args []pval, h *pheap) ([]pval, bool)     // call through a function value
+	onReduce         func(fn *ssa.Function, call *ssa.Call, name string, shape []int64, axes []int64) // a gorgonia reduction on a tensor of known shape
+	onRepeat         func(fn *ssa.Function, call *ssa.Call, shape []int64, axis, n int64)             // tensor.Repeat on a tensor of known shape
+	onInvoke         func(fn *ssa.Function, call *ssa.Call, recv pval, method string, args []pval, h *pheap) ([]pval, bool)
+	onStore          func(fn *ssa.Function, in ssa.Instruction, obj int64, field int) // a field of a heap object is written
+	visited          map[*ssa.Function]bool
+	decided          int // branches on a known condition that depends on the seed
+	trace            bool
+	globals          map[*ssa.Global]pval // package-level variables, filled by initGlobals
+	listsAreSlicesOf types.Type           // when set: every list stands for a slice with this element type (type assertions)
+	inInit           bool
+	initFailed       []string
+	initPkgs         map[string]bool // packages whose initialisers are walked (others are skipped)
+	objects          bool            // model struct objects, maps and slices of arbitrary values (the interpreter tables of the Run plumbing)
+	hdrCache         map[*ssa.Function]bool
+	listReads        int
 }
 
 type pframe struct {
@@ -813,6 +814,15 @@ outer:
 						z, _ := zeroOf(x.AssertedType)
 						fr.tuples[x] = []pval{z, {k: pBool, b: false}}
 					}
+					if v.k == pList && p.listsAreSlicesOf != nil {
+						// a list standing for a slice of a known element type
+						if st, ok := x.AssertedType.Underlying().(*types.Slice); ok && types.Identical(st.Elem(), p.listsAreSlicesOf) {
+							fr.tuples[x] = []pval{v, {k: pBool, b: true}}
+						} else {
+							z, _ := zeroOf(x.AssertedType)
+							fr.tuples[x] = []pval{z, {k: pBool, b: false}}
+						}
+					}
 				}
 			case *ssa.Slice:
 				delete(fr.env, x)
@@ -1196,6 +1206,12 @@ func (p *pinterp) call(fn *ssa.Function, fr *pframe, x *ssa.Call, depth int) {
 				if l := fr.heap.lists[rv.j]; l != nil {
 					fr.env[x] = pval{k: pInt, i: int64(len(l))}
 				}
+			case "Materialize":
+				fr.env[x] = rv // the same elements in a tensor of their own: shape and content as they are
+			case "Slice":
+				if res, ok := p.sliceModel(fr, rv, cc); ok {
+					fr.tuples[x] = res
+				}
 			case "Max", "Min", "Sum":
 				args := make([]pval, 0, len(cc.Args)+1)
 				if cc.IsInvoke() {
@@ -1329,6 +1345,10 @@ func (p *pinterp) call(fn *ssa.Function, fr *pframe, x *ssa.Call, depth int) {
 			args[i] = p.val(fr, a)
 		}
 		if fv := p.val(fr, cc.Value); !cc.IsInvoke() && fv.k == pFunc && fv.fn != nil {
+			if fnPkgPath(fv.fn) == pkgTensor && fv.fn.Signature.Recv() == nil && p.onExt != nil {
+				// a gorgonia function reached through a function value: the client sees it like a direct call
+				p.onExt(fn, x, pkgTensor+"."+fv.fn.Name(), args, fr.heap)
+			}
 			if fnPkgPath(fv.fn) == pkgTensor && isReductionName(strings.TrimSuffix(fv.fn.Name(), "$thunk")) {
 				if res, ok := p.reduction(fn, x, strings.TrimSuffix(fv.fn.Name(), "$thunk"), fr, args); ok {
 					fr.tuples[x] = res
@@ -1862,4 +1882,126 @@ func libStruct(t types.Type) bool {
 		return true
 	}
 	return isLibPkgPath(n.Obj().Pkg().Path())
+}
+
+// sliceModel: gorgonia's Tensor.Slice for slicers of step 1 with start < end (the cases gonnx's helpers use; the
+// others are the known findings of C08): the sliced axes take the extent end-start, an axis sliced down to
+// extent 1 is dropped (AP.S), unsliced axes (nil) stay. The slicers are heap objects with the fields start,
+// end, step of ops.Slicer, read by name.
+func (p *pinterp) sliceModel(fr *pframe, t pval, cc *ssa.CallCommon) ([]pval, bool) {
+	sh := fr.heap.lists[t.j]
+	if sh == nil || len(cc.Args) == 0 {
+		return nil, false
+	}
+	lv := p.val(fr, cc.Args[len(cc.Args)-1])
+	var sl []pval
+	switch lv.k {
+	case pList:
+		sl = fr.heap.lists[lv.i]
+		if sl == nil {
+			return nil, false
+		}
+	case pNil:
+	default:
+		return nil, false
+	}
+	if len(sl) > len(sh) {
+		return nil, false
+	}
+	shape := make([]int64, len(sh))
+	for i, e := range sh {
+		if e.k != pInt {
+			return nil, false
+		}
+		shape[i] = e.i
+	}
+	type rng struct {
+		lo, hi int64
+		sliced bool
+	}
+	rs := make([]rng, len(shape))
+	for i := range shape {
+		rs[i] = rng{0, shape[i], false}
+	}
+	for i, s := range sl {
+		switch s.k {
+		case pNil:
+		case pObj:
+			o := fr.heap.objs[s.i]
+			if o == nil || o.typ == nil {
+				return nil, false
+			}
+			st, ok := o.typ.Underlying().(*types.Struct)
+			if !ok {
+				return nil, false
+			}
+			get := func(name string) (int64, bool) {
+				for f := 0; f < st.NumFields(); f++ {
+					if st.Field(f).Name() == name {
+						v, set := o.fields[f]
+						if !set {
+							return 0, true
+						}
+						return v.i, v.k == pInt
+					}
+				}
+				return 0, false
+			}
+			lo, ok1 := get("start")
+			hi, ok2 := get("end")
+			step, ok3 := get("step")
+			if !ok1 || !ok2 || !ok3 || step != 1 || lo < 0 || hi <= lo {
+				return nil, false
+			}
+			if hi > shape[i] {
+				return []pval{{k: pNil}, {k: pNonNil}}, true // gorgonia refuses an end beyond the extent
+			}
+			rs[i] = rng{lo, hi, true}
+		default:
+			return nil, false
+		}
+	}
+	var nshape []pval
+	for i := range shape {
+		e := rs[i].hi - rs[i].lo
+		if rs[i].sliced && e == 1 {
+			continue
+		}
+		nshape = append(nshape, pval{k: pInt, i: e})
+	}
+	if nshape == nil {
+		nshape = []pval{}
+	}
+	nv := pval{k: pShaped, i: t.i, j: fr.heap.alloc(nshape).i}
+	if old := fr.heap.lists[t.m]; t.m != 0 && old != nil {
+		total := int64(1)
+		for _, e := range shape {
+			total *= e
+		}
+		if int64(len(old)) == total && total <= 4096 {
+			strides := make([]int64, len(shape))
+			acc := int64(1)
+			for i := len(shape) - 1; i >= 0; i-- {
+				strides[i] = acc
+				acc *= shape[i]
+			}
+			var nc []pval
+			var rec func(axis int, off int64)
+			rec = func(axis int, off int64) {
+				if axis == len(shape) {
+					nc = append(nc, old[off])
+					return
+				}
+				for c := rs[axis].lo; c < rs[axis].hi; c++ {
+					rec(axis+1, off+c*strides[axis])
+				}
+			}
+			rec(0, 0)
+			if nc == nil {
+				nc = []pval{}
+			}
+			nv.m = fr.heap.alloc(nc).i
+		}
+	}
+	return []pval{nv, {k: pNil}}, true
 }
